@@ -34,7 +34,9 @@ Strs == << <<>>, <<97>>, <<97, 98, 99>>, <<72, 101, 108, 108, 111>>, <<49, 50>>,
 FVals == [i \in 1 .. Len(Strs) |-> S(Strs[i])] \o
         <<I(0), I(7), I(-3), I(12), F(1500), F(-500), F(2000), B(TRUE), B(FALSE), N,
           L(<<>>), L(<<S(<<97>>), S(<<98>>)>>), L(<<S(<<49>>), I(2), N, S(<<120>>)>>),
-          L(<<I(1), I(2), I(3)>>), M(<<ka>>, <<S(<<97>>)>>), M(<<>>, <<>>)>>
+          L(<<I(1), I(2), I(3)>>), M(<<ka>>, <<S(<<97>>)>>), M(<<>>, <<>>),
+          L(<<S(<<>>), S(<<97>>), S(<<98>>)>>), L(<<S(<<>>), S(<<>>), S(<<120>>)>>), L(<<S(<<97>>), S(<<>>)>>),
+          L(<<S(<<97>>)>>), L(<<S(<<>>)>>)>>
 
 Fns == <<"count", "to_upper", "to_lower", "parse_int", "parse_float", "parse_boolean", "parse_string",
          "parse_char", "join", "substring">>
